@@ -1,5 +1,5 @@
 /-
-Helper lemmas for C06, dedup: the seen-map of the code (hash ↦ count) against the history of earlier keys of
+Helper lemmas for C06, dedup: the seen-map of the code (key ↦ count) against the history of earlier keys of
 the specification; the Fetch loop over dedup; transfer between key functions that agree up to an injection.
 Core Lean only.
 -/
@@ -106,14 +106,14 @@ def Rel (cons : Bool) (seen : Seen) (pre : List Nat) : Prop :=
 theorem rel_init (cons : Bool) : Rel cons [] [] := by
   intro k; simp [cnt_nil]
 
-theorem dedupRow_none (h : Val → Nat) (o : DedupOpts) (seen : Seen) (r : Row)
-    (hk : rowKey (xorKey h) o.fields r = none) : dedupRow h o seen r = (seen, !o.keepEmpty) := by
+theorem dedupRow_none (kf : List Val → Nat) (o : DedupOpts) (seen : Seen) (r : Row)
+    (hk : rowKey kf o.fields r = none) : dedupRow kf o seen r = (seen, !o.keepEmpty) := by
   unfold dedupRow; rw [hk]
 
-theorem dedupRow_some (h : Val → Nat) (o : DedupOpts) (seen : Seen) (pre : List Nat) (r : Row) (k : Nat)
-    (hk : rowKey (xorKey h) o.fields r = some k) (hR : Rel o.consecutive seen pre) :
-    Rel o.consecutive (dedupRow h o seen r).1 (k :: pre) ∧
-      (dedupRow h o seen r).2 = decide (cnt o.consecutive pre k ≥ max o.limit 1) := by
+theorem dedupRow_some (kf : List Val → Nat) (o : DedupOpts) (seen : Seen) (pre : List Nat) (r : Row) (k : Nat)
+    (hk : rowKey kf o.fields r = some k) (hR : Rel o.consecutive seen pre) :
+    Rel o.consecutive (dedupRow kf o seen r).1 (k :: pre) ∧
+      (dedupRow kf o seen r).2 = decide (cnt o.consecutive pre k ≥ max o.limit 1) := by
   have hRk := hR k
   unfold dedupRow
   rw [hk]
@@ -156,29 +156,29 @@ theorem dedupRow_some (h : Val → Nat) (o : DedupOpts) (seen : Seen) (pre : Lis
       rw [hc'] at this
       simp [hkk, this]
 
-theorem dedupRows_spec (h : Val → Nat) (o : DedupOpts) : ∀ (t : Table) (seen : Seen) (pre : List Nat),
+theorem dedupRows_spec (kf : List Val → Nat) (o : DedupOpts) : ∀ (t : Table) (seen : Seen) (pre : List Nat),
     Rel o.consecutive seen pre →
-    (dedupRows h o seen t).2 = dedupSpecFrom (rowKey (xorKey h) o.fields) o pre t := by
+    (dedupRows kf o seen t).2 = dedupSpecFrom (rowKey kf o.fields) o pre t := by
   intro t
   induction t with
   | nil => intro seen pre _; simp [dedupRows, dedupSpecFrom]
   | cons r t ih =>
     intro seen pre hR
     simp only [dedupRows, dedupSpecFrom]
-    cases hk : rowKey (xorKey h) o.fields r with
+    cases hk : rowKey kf o.fields r with
     | none =>
-      rw [dedupRow_none h o seen r hk]
+      rw [dedupRow_none kf o seen r hk]
       simp only
       rw [ih seen pre hR]
     | some k =>
-      obtain ⟨hR', hd⟩ := dedupRow_some h o seen pre r k hk hR
+      obtain ⟨hR', hd⟩ := dedupRow_some kf o seen pre r k hk hR
       simp only
       rw [hd, ih _ _ hR']
       rfl
 
-theorem dedupRows_append (h : Val → Nat) (o : DedupOpts) : ∀ (a b : Table) (seen : Seen),
-    dedupRows h o seen (a ++ b) =
-      ((dedupRows h o (dedupRows h o seen a).1 b).1, (dedupRows h o seen a).2 ++ (dedupRows h o (dedupRows h o seen a).1 b).2) := by
+theorem dedupRows_append (kf : List Val → Nat) (o : DedupOpts) : ∀ (a b : Table) (seen : Seen),
+    dedupRows kf o seen (a ++ b) =
+      ((dedupRows kf o (dedupRows kf o seen a).1 b).1, (dedupRows kf o seen a).2 ++ (dedupRows kf o (dedupRows kf o seen a).1 b).2) := by
   intro a
   induction a with
   | nil => intro b seen; simp [dedupRows]
@@ -190,30 +190,25 @@ theorem dedupRows_append (h : Val → Nat) (o : DedupOpts) : ∀ (a b : Table) (
 
 /-! ### the Fetch loop over dedup -/
 
-/-- every non-empty batch carries the first dedup field as a column (so the row loop runs) -/
-def firstColOK (f0 : String) (parts : List Table) : Prop := ∀ b ∈ parts, b.isEmpty = false → hasCol b f0 = true
-
-theorem dedup_process (h : Val → Nat) (o : DedupOpts) (f0 : String) (fs : List String) (hf : o.fields = f0 :: fs)
-    (seen : Seen) (b : Table) (hb : b.isEmpty = false → hasCol b f0 = true) :
-    (dedupProc h o).process seen b = ((dedupRows h o seen b).1, some (dedupRows h o seen b).2, false) := by
+theorem dedup_process (kf : List Val → Nat) (o : DedupOpts) (hf : o.fields ≠ [])
+    (seen : Seen) (b : Table) :
+    (dedupProc kf o).process seen b = ((dedupRows kf o seen b).1, some (dedupRows kf o seen b).2, false) := by
   simp only [dedupProc]
-  cases b with
-  | nil => simp [dedupRows]
-  | cons r t =>
-    have := hb (by simp)
-    simp [hf, this]
+  cases hfl : o.fields with
+  | nil => exact absurd hfl hf
+  | cons f fs => rfl
 
-theorem dedup_pass (h : Val → Nat) (o : DedupOpts) (f0 : String) (fs : List String) (hf : o.fields = f0 :: fs) :
-    ∀ (parts : List Table) (seen : Seen), firstColOK f0 parts →
-    ((pass (dedupProc h o) true seen parts).2).flatten = (dedupRows h o seen parts.flatten).2 := by
+theorem dedup_pass (kf : List Val → Nat) (o : DedupOpts) (hf : o.fields ≠ []) :
+    ∀ (parts : List Table) (seen : Seen),
+    ((pass (dedupProc kf o) true seen parts).2).flatten = (dedupRows kf o seen parts.flatten).2 := by
   intro parts
   induction parts with
-  | nil => intro seen _; rw [pass_nil _ _ _ rfl]; simp [dedupProc, otl, dedupRows]
+  | nil => intro seen; rw [pass_nil _ _ _ rfl]; simp [dedupProc, otl, dedupRows]
   | cons b bs ih =>
-    intro seen hok
-    rw [pass_cons _ _ _ _ _ rfl, dedup_process h o f0 fs hf seen b (hok b List.mem_cons_self)]
+    intro seen
+    rw [pass_cons _ _ _ _ _ rfl, dedup_process kf o hf seen b]
     simp only [Bool.false_eq_true, ↓reduceIte, otl, List.flatten_cons, List.cons_append, List.nil_append]
-    rw [ih _ (fun b' hb' => hok b' (List.mem_cons_of_mem b hb')), dedupRows_append]
+    rw [ih, dedupRows_append]
 
 /-! ### transfer between key functions -/
 
@@ -267,15 +262,36 @@ theorem rowKey_map (g : List Val → κ) (fs : List String) (r : Row) :
   simp only [rowKey]
   by_cases hc : (List.map r.get fs).any Val.isNull = true <;> simp [hc]
 
-/-! ### the XOR combination -/
+/-! ### the key of a tuple -/
 
-theorem xorKey_single (h : Val → Nat) (v : Val) : xorKey h [v] = h v := by
-  simp [xorKey]
+theorem rowKey_length (fs : List String) (r : Row) (vs : List Val)
+    (h : rowKey (fun vs => vs) fs r = some vs) : vs.length = fs.length := by
+  simp only [rowKey] at h
+  by_cases hc : (List.map r.get fs).any Val.isNull = true
+  · simp [hc] at h
+  · simp [hc] at h; subst h; simp
 
-theorem xorKey_swap (h : Val → Nat) (a b : Val) : xorKey h [a, b] = xorKey h [b, a] := by
-  simp [xorKey, Nat.xor_comm]
+theorem map_injective_of_injective {α β : Type} (h : α → β) (hinj : ∀ v w, h v = h w → v = w) :
+    ∀ (vs ws : List α), vs.map h = ws.map h → vs = ws := by
+  intro vs
+  induction vs with
+  | nil => intro ws e; cases ws with
+    | nil => rfl
+    | cons w ws => simp at e
+  | cons v vs ih =>
+    intro ws e
+    cases ws with
+    | nil => simp at e
+    | cons w ws =>
+      simp only [List.map_cons, List.cons.injEq] at e
+      rw [hinj v w e.1, ih ws e.2]
 
-theorem xorKey_pair_self (h : Val → Nat) (a : Val) : xorKey h [a, a] = 0 := by
-  simp [xorKey]
+/-! ### the XOR combination of the code before the repair -/
+
+theorem xorKeyOld_swap (h : Val → Nat) (a b : Val) : xorKeyOld h [a, b] = xorKeyOld h [b, a] := by
+  simp [xorKeyOld, Nat.xor_comm]
+
+theorem xorKeyOld_pair_self (h : Val → Nat) (a : Val) : xorKeyOld h [a, a] = 0 := by
+  simp [xorKeyOld]
 
 end SigModel.Lemmas.C06
